@@ -7,7 +7,8 @@ COMMON_TRUST = [
 ]
 
 SSO_TRUST = [
-    "Model.Sso is a hand-written model of ssoHandleFunc over the chain skeleton: tied by theorem sso_skeleton_current (regenerated step list, kinds, callees, failure replies and per-step source fingerprints = snapshot) and by the sso correspondence (model vs implementation on every generated request, the model input derived with the library's own decoders)",
+    "Model.Sso is a hand-written model of ssoHandleFunc. Tie 1 (proof): ssoHandleFunc and getAuthRequestFromRequest are translated by go2lean on every run (chain handler: the closure literals registered with the checker.Checker are functions of the handler frame, fifteen Go.Step, CheckFailed() = Go.runChain = Model.Checker on the panic-absorbing state; storage.CreateAuthRequest is recorded in the effect trace with its arguments; the func(error) parameters of verifyRedirectSignature / verifyPostSignature are extra results of generated _wb variants proved equal to the plain ones) and SsoGen.sso_handler_refines proves, step lemma by step lemma, that for every answer of the environment (GetMetadata, ParseForm / FormValue / URL.Query, xml.DecodeAuthNRequest, GetServiceProvider, the two signature validators, time.Now / Parse, CreateAuthRequest, GetID, LoginURL, NewID as typed oracles) the regenerated handler does observably what Sso.sso does on the input read off from the same answers: same reply (HTTP 500 / failed Response with the same status, delivery parameters and InResponseTo / 303 to the login URL), same CreateAuthRequest call or none; C05_generated_handler, C06_generated_handler, C08_generated_handler, C09_generated_sso_handler state the properties on the regenerated handler. Tie 2 (correspondence): the sso differential (model vs implementation on every generated request, the model input derived with the library's own decoders)",
+    "environment contract of sso_handler_refines (EnvOK): a decoder / storage call that reports no error hands back a non-nil value, registered service providers carry their metadata (NewServiceProvider builds no other)",
     "net/http form parsing, encoding/xml decoding, gorilla/mux routing are not modelled (the harness derives the model's input from them)",
 ]
 
@@ -73,8 +74,8 @@ PROPS = {
                         "a registered consumer URL contains no '#' (a fragment would swallow the query); URLs with an own query are covered by C04_redirect_url_with_query under the stated hypothesis that they do not themselves carry a SAMLResponse / RelayState / SigAlg / Signature parameter"],
     },
     "C05": {
-        "modules": ["SamlModel.Props.C05", "SamlModel.Props.SendBack", "SamlModel.Props.Stateless"],
-        "translated": ["signaturePostProvided", "signaturePostVerificationNecessary", "signatureRedirectVerificationNecessary",
+        "modules": ["SamlModel.Props.C05", "SamlModel.Props.SendBack", "SamlModel.Props.SsoGen", "SamlModel.Props.SsoProps", "SamlModel.Props.Stateless"],
+        "translated": ["IdentityProvider_ssoHandleFunc", "getAuthRequestFromRequest", "signaturePostProvided", "signaturePostVerificationNecessary", "signatureRedirectVerificationNecessary",
                        "verifyRedirectSignature", "verifyPostSignature", "certificateCheckNecessary", "checkCertificate", "isXSBooleanTrue"],
         "trusted_base": COMMON_TRUST + SSO_TRUST + [
             "RSA / XML-DSig validation are oracles: ServiceProvider.ValidateRedirectSignature / ValidatePostSignature (their octet reconstruction, goxmldsig, etree) are sampled by the harness with real keys, not proved; signature-wrapping inside goxmldsig/etree vs encoding/xml is outside the theorem",
@@ -82,16 +83,16 @@ PROPS = {
         "assumptions": ["Form.WF: the binding decision of getAuthRequestFromRequest is POST or Redirect (fingerprinted function; checked on every case by the sso correspondence)"],
     },
     "C06": {
-        "modules": ["SamlModel.Props.C06", "SamlModel.Props.SendBack", "SamlModel.Props.Stateless"],
-        "translated": ["checkRequestRequiredContent", "checkIfRequestTimeIsStillValid", "verifyRequestDestinationOfAuthRequest", "ServiceProvider_GetEntityID"],
+        "modules": ["SamlModel.Props.C06", "SamlModel.Props.SendBack", "SamlModel.Props.SsoGen", "SamlModel.Props.SsoProps", "SamlModel.Props.Stateless"],
+        "translated": ["IdentityProvider_ssoHandleFunc", "getAuthRequestFromRequest", "checkRequestRequiredContent", "checkIfRequestTimeIsStillValid", "verifyRequestDestinationOfAuthRequest", "ServiceProvider_GetEntityID"],
         "trusted_base": COMMON_TRUST + SSO_TRUST + [
             "time.Parse / time.Now are oracles (Ora.timeParse, Ora.now) in C06_accept_implies_valid and its corollaries; for the library's DefaultTimeFormat time.Parse is additionally modelled (Lib.Time.parseDefault, written from Go 1.23's time/format.go; compared with time.Parse on a boundary corpus and 2*10^4 (thorough 3*10^5) mutated strings on every run: `lib timeparse`) and C06_window_concrete / C06_zero_time_is_expired are stated over that model under the hypothesis ParsesAsGo; XML decoding (DecodeAuthNRequest incl. base64/DEFLATE) is an oracle whose failure is `decoded = none`",
         ],
         "assumptions": ["wall-clock cases keep a 10-minute guard band; the exact boundary NotBefore <= now < NotOnOrAfter is covered by the theorem on the translated time.go"],
     },
     "C08": {
-        "modules": ["SamlModel.Props.C08", "SamlModel.Props.SendBack", "SamlModel.Props.Stateless"],
-        "translated": ["GetAcsUrlAndBindingForResponse", "checkRequestRequiredContent"],
+        "modules": ["SamlModel.Props.C08", "SamlModel.Props.SendBack", "SamlModel.Props.SsoGen", "SamlModel.Props.SsoProps", "SamlModel.Props.Stateless"],
+        "translated": ["IdentityProvider_ssoHandleFunc", "getAuthRequestFromRequest", "GetAcsUrlAndBindingForResponse", "checkRequestRequiredContent"],
         "trusted_base": COMMON_TRUST + SSO_TRUST + [
             "that the implementation writes exactly one reply and calls CreateAuthRequest at most once is observed by the harness (reply parser counts documents/forms; storage call log), the model's Result holds one of each by construction",
         ],
@@ -180,7 +181,7 @@ PROPS = {
         "assumptions": ["scheme comparison follows net/url (scheme is lower-cased by the parser; schemes are case-insensitive per RFC 3986)"],
     },
     "C02": {
-        "modules": ["SamlModel.Props.C02", "SamlModel.Props.HandlerGen", "SamlModel.Props.HandlerProps", "SamlModel.Props.SendBack", "SamlModel.Props.LogoutProps", "SamlModel.Props.Stateless"],
+        "modules": ["SamlModel.Props.C02", "SamlModel.Props.HandlerGen", "SamlModel.Props.HandlerProps", "SamlModel.Props.SendBack", "SamlModel.Props.LogoutProps", "SamlModel.Props.SsoProps", "SamlModel.Props.Stateless"],
         "translated": ["GetAcsUrlAndBindingForResponse", "IdentityProvider_logoutHandleFunc", "LogoutResponse_sendBackLogoutResponse"],
         "trusted_base": COMMON_TRUST + SSO_TRUST + CB_TRUST + SLO_TRUST + [
             "the auto-submit form (action attribute) is covered byte-exactly by C17; the redirect URL assembly (two fingerprinted lines of sendBackResponse) is hand-modelled as redirectURL",
@@ -188,7 +189,7 @@ PROPS = {
         "assumptions": ["callback: 'registered' is by composition with the SSO theorem - the stored pair is the pair the SSO endpoint persisted (C02_sso_persists_registered_pair); storage is trusted to return what was stored"],
     },
     "C10": {
-        "modules": ["SamlModel.Props.C10", "SamlModel.Props.HandlerGen", "SamlModel.Props.SendBack", "SamlModel.Props.LogoutProps", "SamlModel.Props.AttrQueryProps", "SamlModel.Props.Stateless"],
+        "modules": ["SamlModel.Props.C10", "SamlModel.Props.HandlerGen", "SamlModel.Props.SendBack", "SamlModel.Props.LogoutProps", "SamlModel.Props.AttrQueryProps", "SamlModel.Props.SsoProps", "SamlModel.Props.Stateless"],
         "translated": ["getResponseCert"],
         "trusted_base": COMMON_TRUST + SSO_TRUST + CB_TRUST + [
             "Model.Metadata (metadata / certificate / readiness handlers), Model.Logout, Model.AttrQuery: hand models tied by fingerprints and their correspondences",
@@ -209,7 +210,7 @@ PROPS = {
                         "hunsigned (C11_want_signed_means_refused): the XML-DSig validator rejects a document without signature (goxmldsig; sampled)"],
     },
     "C09": {
-        "modules": ["SamlModel.Props.C09", "SamlModel.Props.HandlerGen", "SamlModel.Props.SendBack", "SamlModel.Props.LogoutProps", "SamlModel.Props.AttrQueryProps", "SamlModel.Props.Stateless"],
+        "modules": ["SamlModel.Props.C09", "SamlModel.Props.HandlerGen", "SamlModel.Props.SendBack", "SamlModel.Props.LogoutProps", "SamlModel.Props.AttrQueryProps", "SamlModel.Props.SsoProps", "SamlModel.Props.Stateless"],
         "translated": ["certificateCheckNecessary", "checkCertificate", "equalCertificateText", "checkRequestRequiredContent", "verifyRequestDestinationOfAuthRequest",
                        "verifyRequestDestinationOfAttrQuery", "GetCertsFromKeyDescriptors", "getResponseCert", "GetAcsUrlAndBindingForResponse",
                        "signaturePostProvided", "signatureRedirectVerificationNecessary", "signaturePostVerificationNecessary", "verifyRedirectSignature", "verifyPostSignature"],
@@ -220,8 +221,8 @@ PROPS = {
         "assumptions": ["SpWF: a registered service provider has metadata with an SPSSODescriptor (NewServiceProvider refuses others); storage returns non-nil objects with nil errors"],
     },
     "C07": {
-        "modules": ["SamlModel.Props.C07", "SamlModel.Props.SendBack", "SamlModel.Props.Stateless"],
-        "translated": ["signatureRedirectVerificationNecessary", "signaturePostVerificationNecessary", "verifyRedirectSignature", "verifyPostSignature",
+        "modules": ["SamlModel.Props.C07", "SamlModel.Props.SendBack", "SamlModel.Props.SsoGen", "SamlModel.Props.SsoProps", "SamlModel.Props.Stateless"],
+        "translated": ["IdentityProvider_ssoHandleFunc", "getAuthRequestFromRequest", "signatureRedirectVerificationNecessary", "signaturePostVerificationNecessary", "verifyRedirectSignature", "verifyPostSignature",
                        "certificateCheckNecessary", "checkCertificate", "checkRequestRequiredContent", "checkIfRequestTimeIsStillValid",
                        "verifyRequestDestinationOfAuthRequest", "verifyRequestDestinationOfAttrQuery", "GetAcsUrlAndBindingForResponse"],
         "trusted_base": COMMON_TRUST + SSO_TRUST + [
